@@ -206,6 +206,12 @@ def catalogue():
         add('utpm(2,) %s utpm(2,)' % opn, [U((2,)), U((2,), dom)], g, group='arith', npfn=f)
         add('utpm(3,2) %s ndarray(2,)' % opn, [U((3, 2)), N((2,), dom)], g, group='arith', npfn=f)
         add('utpm(2,) %s scalar' % opn, [U((2,)), Sc(dom)], g, group='arith', npfn=f)
+    # constants of unusual type / magnitude (tagged 'tight': C10 compares the float replay relatively)
+    for nm, c in [('float32(3)', np.float32(3)), ('float32(0.1)', np.float32(0.1)), ('int 3', 3), ('int64(7)', np.int64(7)),
+                  ('1e-310 (subnormal)', 1e-310), ('1e300', 1e300)]:
+        add('utpm div %s' % nm, [U((2,))], (lambda c: lambda algopy, x: x / c)(c), group='arith', npfn=(lambda c: lambda a: a / c)(c), tags=['tight'])
+        add('utpm mul %s' % nm, [U((2,))], (lambda c: lambda algopy, x: x * c)(c), group='arith', npfn=(lambda c: lambda a: a * c)(c), tags=['tight'])
+        add('%s div utpm' % nm, [U((2,), 'nonzero')], (lambda c: lambda algopy, x: c / x)(c), group='arith', npfn=(lambda c: lambda a: c / a)(c), tags=['tight'])
     # fft / ifft through the algopy.fft dispatchers (exact DFT for n in {1, 2, 4})
     for nm, shp, kw in [('fft', (4,), {}), ('fft(n=2, crop)', (4,), {'n': 2}), ('fft(n=4, pad)', (2,), {'n': 4}),
                         ('fft(axis=0)', (2, 3), {'axis': 0}), ('fft(n=4,axis=0)', (2, 2), {'n': 4, 'axis': 0})]:
